@@ -116,7 +116,11 @@ func c13Gen(rt *rapid.T) c13Case {
 		} else if len(names) > 0 && rapid.IntRange(0, 4).Draw(rt, "sel") == 0 {
 			tn := names[rapid.IntRange(0, len(names)-1).Draw(rt, "seltbl")]
 			st.Select = "SELECT * FROM " + tn
-			if k := rapid.IntRange(0, 3).Draw(rt, "seljoins"); k >= 2 {
+			if rapid.IntRange(0, 5).Draw(rt, "selcatalog") == 0 {
+				// the catalog tables are tables like any other: read inside the bracket
+				st.Select = rapid.SampledFrom([]string{"SELECT * FROM sys_pages", "SELECT * FROM sys_schema", "SELECT * FROM sys_pages p JOIN sys_schema s ON p.table_name = s.table_name",
+					"SELECT count(*) FROM sys_schema"}).Draw(rt, "catsel")
+			} else if k := rapid.IntRange(0, 3).Draw(rt, "seljoins"); k >= 2 {
 				// a chain of joins: the statement fetches one table after the other, all
 				// inside one bracket (self-joins under aliases: the key types match)
 				col := db.Tables[tn].Cols[0].Name
